@@ -20,6 +20,7 @@ pub struct Client {
     shared: Rc<MqttShared>,
     keepalive: Seconds,
     max_receive: usize,
+    max_topic_alias: u16,
     cfg: Cfg<MqttServiceConfig>,
     pkt: Box<codec::ConnectAck>,
 }
@@ -29,6 +30,7 @@ impl fmt::Debug for Client {
         f.debug_struct("v5::Client")
             .field("keepalive", &self.keepalive)
             .field("max_receive", &self.max_receive)
+            .field("max_topic_alias", &self.max_topic_alias)
             .field("cfg", &self.cfg)
             .field("connect", &self.pkt)
             .finish()
@@ -42,10 +44,19 @@ impl Client {
         shared: Rc<MqttShared>,
         pkt: Box<codec::ConnectAck>,
         max_receive: u16,
+        max_topic_alias: u16,
         keepalive: Seconds,
         cfg: Cfg<MqttServiceConfig>,
     ) -> Self {
-        Client { io, pkt, shared, cfg, keepalive, max_receive: max_receive as usize }
+        Client {
+            io,
+            pkt,
+            shared,
+            cfg,
+            keepalive,
+            max_topic_alias,
+            max_receive: max_receive as usize,
+        }
     }
 }
 
@@ -94,6 +105,7 @@ impl Client {
             shared: self.shared,
             keepalive: self.keepalive,
             max_receive: self.max_receive,
+            max_topic_alias: self.max_topic_alias,
             cfg: self.cfg,
             _t: marker::PhantomData,
         }
@@ -114,7 +126,7 @@ impl Client {
                 Ready::Ok(msg.disconnect(codec::Disconnect::default()))
             }),
             self.max_receive,
-            16,
+            self.max_topic_alias,
             self.cfg,
         );
         let control = ControlService::new(
@@ -141,7 +153,7 @@ impl Client {
             fn_service(|pkt| Ready::Ok(Either::Left(pkt))),
             service.into_service(),
             self.max_receive,
-            16,
+            self.max_topic_alias,
             self.cfg,
         );
         let control = ControlService::new(
@@ -173,7 +185,7 @@ impl Client {
             fn_service(|pkt| Ready::Ok(Either::Left(pkt))),
             service.into_service(),
             self.max_receive,
-            16,
+            self.max_topic_alias,
             self.cfg,
         );
         let control = ControlService::new(control, self.shared.clone());
@@ -197,6 +209,7 @@ pub struct ClientRouter<Err, PErr> {
     shared: Rc<MqttShared>,
     keepalive: Seconds,
     max_receive: usize,
+    max_topic_alias: u16,
     cfg: Cfg<MqttServiceConfig>,
     _t: marker::PhantomData<Err>,
 }
@@ -206,6 +219,7 @@ impl<Err, PErr> fmt::Debug for ClientRouter<Err, PErr> {
         f.debug_struct("v5::ClientRouter")
             .field("keepalive", &self.keepalive)
             .field("max_receive", &self.max_receive)
+            .field("max_topic_alias", &self.max_topic_alias)
             .finish()
     }
 }
@@ -242,7 +256,7 @@ where
                 Ready::Ok(msg.disconnect(codec::Disconnect::default()))
             }),
             self.max_receive,
-            16,
+            self.max_topic_alias,
             self.cfg,
         );
         let control = ControlService::new(
@@ -268,7 +282,7 @@ where
             dispatch(self.builder.finish(), self.handlers),
             service.into_service(),
             self.max_receive,
-            16,
+            self.max_topic_alias,
             self.cfg,
         );
         let control = ControlService::new(
